@@ -12,7 +12,7 @@ MANIFEST = {
             'hand-written thresholds on dst.len() are extracted exactly and are <= the minimum; with replacement: dst.len() < NCR_EXTRA is the '
             'only early exit and NCR_EXTRA + 4 is the documented 14), so a fresh minimum-size sink always admits the next step; (c) no '
             'iteration spins: in every converter body each CFG cycle contains a unit fetch or a handle write, and a push-back (unread) that '
-            'continues the loop has stored output first (ISO-2022-JP escape-then-retry). The linear bound on the number of calls as such '
+            'continues the loop has stored output first (ISO-2022-JP escape-then-retry); (d) every Unmappable result reports the unmappable character as consumed (a consumed() count, or position + k >= 1 in the single-byte UTF-16 loop), never the count after an unread(). The linear bound on the number of calls as such '
             'follows from these only together with C02/C04 behaviour and is not separately decided.',
     'note': 'Trusted: rustc MIR, mirx, rule library, documented minimum sizes (lib.rs docs: 4 / 2 / 4 / NCR_EXTRA + 4).',
     'technique': 'control-dependence rule on OutputFull constructions + capacity extraction + cycle/progress analysis on MIR CFGs',
@@ -228,8 +228,38 @@ def no_spin(rep, f, c):
     rep.floor('R-PROGRESS.c', 'converter bodies with loops', n, 36, c)
 
 
+def unmappable_consumed(rep, f, c):
+    """an Unmappable(c) result reports c as consumed: its `read` component is a consumed() count taken after the character was
+    fetched (or position + k, k >= 1, in the hand-written single-byte loop), never the count after pushing the character back"""
+    n = 0
+    for name, b in sorted(f.bodies.items()):
+        if 'Encoder::encode_from_' not in name or not name.endswith('_raw'):
+            continue
+        r = Resolver(b)
+        for bi, blk in enumerate(b.blocks):
+            for st in blk['s']:
+                if not ('assign' in st and st['assign']['l'] == 0 and not st['assign']['p'] and st['rv'].get('aggregate') == 'tuple'):
+                    continue
+                ops = [r.operand(o) for o in st['rv']['ops']]
+                if not (ops and ops[0][0] == 'agg' and (ops[0][1] or '').endswith('::Unmappable')):
+                    continue
+                n += 1
+                rd = ops[1]
+                ok = False
+                what = expr_str(rd, b)[:80]
+                if rd[0] == 'call' and (rd[1] or '').endswith('::consumed'):
+                    ok = True
+                elif rd[0] == 'bin' and rd[1] == 'Add' and rd[3][0] == 'c' and rd[3][1] >= 1:
+                    ok = True
+                rep.ob('R-PROGRESS.unmappable-consumed', '%s:%s' % (name, (rd[1] or '').rsplit('::', 1)[-1] if rd[0] == 'call' else 'expr'), ok,
+                       'an Unmappable result reports a `read` count that does not include the unmappable character (%s): the caller\'s loop would see the same character forever' % what,
+                       sp_str(st['sp']), None, c)
+    rep.floor('R-PROGRESS.unmappable-consumed', 'Unmappable results in encoder bodies', n, 30, c)
+
+
 def run(rep, facts, tier):
     for c, f in facts.items():
+        unmappable_consumed(rep, f, c)
         outputfull(rep, f, c)
         cap_use = r_handle.run(rep, f, c)
         capacities(rep, f, c, cap_use)
